@@ -719,48 +719,96 @@ fn vi_cmd(rng: &mut Rng, out: &mut Vec<String>, insert_mode: &mut bool, fast: bo
     out.extend(toks);
 }
 
-pub fn gen(ctx: &GenCtx, sink: &mut dyn FnMut(String)) {
-    let mut rng = Rng::new(ctx.seed ^ 0xED);
-    let n = if ctx.thorough { 60_000 } else { 3_000 };
+#[derive(Clone, Copy, PartialEq, Eq)]
+pub enum Profile {
+    General,
+    Validator, // C13: a validator is always installed, Enter at arbitrary points
+    Malformed, // C17: arbitrary bytes, truncated sequences, all helper kinds, printer, type-ahead
+}
+
+fn random_helper(rng: &mut Rng, flags: &mut String, profile: Profile) -> String {
+    let mut parts: Vec<String> = vec![];
+    if rng.chance(2, 3) {
+        let k = rng.below(4);
+        let cands: Vec<String> =
+            (0..k).map(|_| rng.pick(&["ab", "abc", "abé", "b", "", "a b", "aZ", "漢a"]).to_string()).collect();
+        parts.push(format!("C={}", enc_texts(&cands)));
+        if rng.chance(1, 3) {
+            flags.push('l');
+        }
+    }
+    let vk = if profile == Profile::Validator { rng.below(2) } else { rng.below(4) };
+    match vk {
+        0 => parts.push("Vb".to_string()),
+        1 => parts.push(format!(
+            "V={}@{};{}@{};{}@{}",
+            'a' as u32,
+            rng.pick(&['i', 'n', 'm', 'v']),
+            '(' as u32,
+            rng.pick(&['i', 'm', 'e', 'v']),
+            'Z' as u32,
+            rng.pick(&['m', 'i', 'n'])
+        )),
+        _ => {}
+    }
+    if rng.chance(1, 3) {
+        parts.push(format!("H={}@{};{}@{}", 'a' as u32, enc_text("bc"), ' ' as u32, enc_text("漢 x")));
+    }
+    if parts.is_empty() {
+        "-".to_string()
+    } else {
+        parts.join("|")
+    }
+}
+
+fn malformed_token(rng: &mut Rng) -> String {
+    match rng.below(10) {
+        0 => {
+            let k = 1 + rng.below(4);
+            hex(&(0..k).map(|_| rng.below(256) as u8).collect::<Vec<u8>>())
+        }
+        1 => rng.pick(&["1b5b", "1b5b31", "1b5b313b", "1b4f", "1b1b", "1b5b323030", "1b5b3230307e", "1b5b3230317e"]).to_string(),
+        2 => rng.pick(&["00", "c280", "c29b", "c285", "ff", "c0af", "eda080", "f4908080", "e2"]).to_string(),
+        3 => {
+            // very large numeric argument
+            let mut s = String::from("1b39");
+            for _ in 0..rng.below(8) {
+                s.push_str("39");
+            }
+            s
+        }
+        4 => rng.pick(&["1b5b3939393b39393952", "1b5b313b3252", "1b5b3130307e", "1b5b31353b357e"]).to_string(),
+        5 => "1b5b3230307e61620d63".to_string(), // paste start without end
+        6 => rng.pick(&["1c", "1d", "1e", "1a", "03", "04", "11", "13"]).to_string(),
+        _ => tok_char(*rng.pick(TEXT)),
+    }
+}
+
+pub fn gen_profile(ctx: &GenCtx, tag: &str, profile: Profile, sink: &mut dyn FnMut(String)) {
+    let mut rng = Rng::new(ctx.seed ^ 0xED ^ ((profile as u64) << 8));
+    let n = match (profile, ctx.thorough) {
+        (_, true) => 60_000,
+        (Profile::General, false) => 3_000,
+        (_, false) => 2_500,
+    };
     for _ in 0..n {
         let vi = rng.chance(2, 5);
         let mut flags = String::new();
         if rng.chance(1, 8) {
             flags.push('t');
         }
-        if rng.chance(1, 10) {
+        let pprob = if profile == Profile::Malformed { 4 } else { 10 };
+        if rng.chance(1, pprob) {
             flags.push('p');
         }
         let mut helper = String::from("-");
-        if rng.chance(1, 3) {
-            let mut parts: Vec<String> = vec![];
-            if rng.chance(2, 3) {
-                let k = rng.below(4);
-                let cands: Vec<String> = (0..k)
-                    .map(|_| rng.pick(&["ab", "abc", "abé", "b", "", "a b", "aZ", "漢a"]).to_string())
-                    .collect();
-                parts.push(format!("C={}", enc_texts(&cands)));
-                if rng.chance(1, 3) {
-                    flags.push('l');
-                }
-            }
-            match rng.below(4) {
-                0 => parts.push("Vb".to_string()),
-                1 => parts.push(format!(
-                    "V={}@{};{}@{}",
-                    'a' as u32,
-                    rng.pick(&['i', 'n', 'm', 'v']),
-                    '(' as u32,
-                    rng.pick(&['i', 'm', 'e'])
-                )),
-                _ => {}
-            }
-            if rng.chance(1, 3) {
-                parts.push(format!("H={}@{};{}@{}", 'a' as u32, enc_text("bc"), ' ' as u32, enc_text("漢 x")));
-            }
-            if !parts.is_empty() {
-                helper = parts.join("|");
-            }
+        let hprob = match profile {
+            Profile::General => 3,
+            Profile::Validator => 1,
+            Profile::Malformed => 2,
+        };
+        if rng.chance(1, hprob) {
+            helper = random_helper(&mut rng, &mut flags, profile);
         }
         let nh = rng.below(4);
         let hist: Vec<String> = (0..nh)
@@ -778,7 +826,8 @@ pub fn gen(ctx: &GenCtx, sink: &mut dyn FnMut(String)) {
             (String::new(), String::new())
         };
         let mut req = format!(
-            "ed {} {} {} {} {} {} {} -",
+            "{} {} {} {} {} {} {} {} -",
+            tag,
             if vi { "v" } else { "e" },
             rng.pick(&[80u16, 80, 20, 10]),
             if flags.is_empty() { "-" } else { &flags },
@@ -791,6 +840,14 @@ pub fn gen(ctx: &GenCtx, sink: &mut dyn FnMut(String)) {
         let mut toks: Vec<String> = vec![];
         let mut insert_mode = true;
         for _ in 0..k {
+            if profile == Profile::Malformed && rng.chance(1, 3) {
+                toks.push(malformed_token(&mut rng));
+                continue;
+            }
+            if profile == Profile::Validator && rng.chance(1, 5) {
+                toks.push(rng.pick(&["0d", "0d", "0a", "28", "29", "61", "5a"]).to_string());
+                continue;
+            }
             if vi {
                 vi_key(&mut rng, &mut toks, &mut insert_mode, helper != "-");
             } else {
@@ -806,4 +863,8 @@ pub fn gen(ctx: &GenCtx, sink: &mut dyn FnMut(String)) {
         }
         sink(req);
     }
+}
+
+pub fn gen(ctx: &GenCtx, sink: &mut dyn FnMut(String)) {
+    gen_profile(ctx, "ed", Profile::General, sink)
 }
